@@ -364,9 +364,8 @@ def cen_first_moment(data, mask=None):
     on dyadic data with a power-of-two total it is exact; it is compared bit for bit anyway
     because the oracle calls the very same function on the very same cutout."""
     d = np.array(data, float)
-    if mask is not None:
-        d = np.where(mask, 0.0, d)
-    d = d - min(d.min(), 0.0)
+    keep = np.ones(d.shape, bool) if mask is None else ~np.asarray(mask, bool)
+    d = np.where(keep, d - min(d[keep].min(), 0.0), 0.0) if keep.any() else np.zeros(d.shape)
     tot = d.sum()
     yy, xx = np.mgrid[0:d.shape[0], 0:d.shape[1]]
     if tot == 0:
@@ -383,12 +382,14 @@ def cen_argmax(data, mask=None):
 
 
 def oracle_centroids(c, tbl, func):
-    """x_centroid/y_centroid of every row = func(cutout of the footprint box centred on the peak,
-    trimmed at the frame, mask = input mask | ~footprint) + cutout origin."""
+    """x_centroid/y_centroid of every row = func(window of the footprint box centred on the peak, trimmed at
+    the frame, mask = input mask | ~footprint | NaN pixels) + window origin.  NaN pixels must not contribute:
+    the oracle hands the centroid function a window whose NaN pixels hold an arbitrary sentinel (NOT the fill
+    value find_peaks uses for its peak search) and are masked; the three centroid functions used here ignore
+    the values of masked pixels, so an implementation that centroids the fill value disagrees."""
     data = np.array(c['data'], float)
     nan = np.isnan(data)
-    if nan.any():
-        data[nan] = np.nanmin(data)
+    data[nan] = 12345.0
     fp = peaks_footprint(c)
     fy, fx = fp.shape
     ny, nx = data.shape
@@ -397,10 +398,10 @@ def oracle_centroids(c, tbl, func):
         ys, xs = max(y0, 0), max(x0, 0)
         ye, xe = min(y0 + fy, ny), min(x0 + fx, nx)
         cut = data[ys:ye, xs:xe]
-        m = ~fp[ys - y0:ye - y0, xs - x0:xe - x0]
+        m = ~fp[ys - y0:ye - y0, xs - x0:xe - x0] | nan[ys:ye, xs:xe]
         if c['mask'] is not None:
             m = m | c['mask'][ys:ye, xs:xe]
-        ex, ey = func(cut, mask=m)
+        ex, ey = func(cut.copy(), mask=m)
         same = lambda a, b: a == b or (a != a and b != b)
         if not (same(float(xc), ex + xs) and same(float(yc), ey + ys)):
             return False
@@ -653,19 +654,36 @@ def make_finder(kind, p):
 
 
 def gen_finder_params(rng, kind):
-    p = dict(threshold=rng.choice([0.0, 0.5, 2.0, 5.0, 10.0]), exclude_border=rng.random() < 0.4,
+    # 0 and 0.0 (int and float zero) appear for every numeric option that admits them
+    p = dict(threshold=rng.choice([0, 0.0, 0.5, 2.0, 5.0, 10.0]), exclude_border=rng.random() < 0.4,
              brightest=None, peakmax=None, xycoords=None)
     if kind == 'DAO':
-        p.update(fwhm=rng.choice([1.5, 2.0, 2.5, 3.0]), ratio=rng.choice([1.0, 1.0, 0.7, 0.5]),
-                 theta=rng.choice([0.0, 0.0, 30.0, 90.0]), sharplo=0.2, sharphi=1.0, roundlo=-1.0, roundhi=1.0,
-                 min_separation=rng.choice([0.0, 0.0, 2.0, 2.5, 3.75, 4.0]))
+        p.update(fwhm=rng.choice([1.5, 2.0, 2.5, 3.0]), ratio=rng.choice([1.0, 1, 0.7, 0.5]),
+                 theta=rng.choice([0.0, 0, 30.0, 90.0]), sharplo=0.2, sharphi=1.0, roundlo=-1.0, roundhi=1.0,
+                 min_separation=rng.choice([0.0, 0, 1.0, 2.0, 2.5, 3.75, 4.0, 8.0]))
     elif kind == 'IRAF':
         p.update(fwhm=rng.choice([1.5, 2.0, 2.5, 3.0]), sharplo=0.5, sharphi=2.0, roundlo=0.0, roundhi=0.2,
-                 min_separation=rng.choice([None, None, 0.0, 2.0, 2.5, 3.25, 5.0]))
+                 min_separation=rng.choice([None, None, 0, 0.0, 1.0, 2.0, 2.5, 3.25, 5.0, 9.0]))
     else:
         p.update(kernel=(rng.choice([3, 5, 7]), rng.choice([3, 5, 7]), rng.choice([0.8, 1.2, 2.0])),
-                 min_separation=rng.choice([5.0, 0.0, 2.0, 2.5, 3.5, 4.75]))
+                 min_separation=rng.choice([5.0, 0, 0.0, 1.0, 2.0, 2.5, 3.5, 4.75, 9.0]))
     return p
+
+
+def make_pair_scene(rng):
+    """two compact sources of clearly different height 2..6 pixels apart (plus optionally a third one far
+    away), well inside the frame: whether the fainter one is detected is decided by min_separation alone"""
+    ny, nx = 21, 23
+    yy, xx = np.mgrid[0:ny, 0:nx]
+    img = np.array([[rng.randint(0, 1) for _ in range(nx)] for _ in range(ny)], float)
+    y, x = rng.randint(7, 12), rng.randint(7, 13)
+    dy, dx = rng.choice([(0, 2), (0, 3), (2, 2), (0, 4), (3, 3), (0, 5), (4, 3), (0, 6), (3, 0), (5, 0)])
+    s_ = rng.choice([0.7, 0.9, 1.1])
+    for (yy0, xx0, a) in [(y, x, 200.0), (y + dy, x + dx, rng.choice([90.0, 120.0, 150.0]))]:
+        img += a * np.exp(-((xx - xx0) ** 2 + (yy - yy0) ** 2) / (2 * s_ * s_))
+    if rng.random() < 0.5:
+        img += 80.0 * np.exp(-((xx - 3) ** 2 + (yy - 17) ** 2) / (2 * s_ * s_))
+    return img, (dy, dx)
 
 
 def raw_rows(kind, cat):
@@ -681,20 +699,42 @@ def raw_rows(kind, cat):
     return [[float(col[i]) for col in cols] for i in range(len(cat))]
 
 
-def conv_of(kind, finder, data):
-    """the convolved image, the threshold and the kernel footprint handed to _find_stars"""
-    from photutils.utils._convolution import _filter_data
+def requested_kernel(kind, p):
+    """the detection kernel that the REQUESTED arguments define (never read back from a finder object)"""
     if kind == 'SF':
-        k = np.array(finder.kernel, float)
+        return sf_kernel(p['kernel'])
+    from photutils.detection.core import _StarFinderKernel
+    if kind == 'DAO':
+        return _StarFinderKernel(p['fwhm'], ratio=p['ratio'], theta=p['theta'], sigma_radius=1.5)
+    return _StarFinderKernel(p['fwhm'], ratio=1.0, theta=0.0, sigma_radius=1.5)
+
+
+def requested_min_separation(kind, p):
+    """the separation that the REQUESTED arguments define; IRAFStarFinder documents
+    min_separation=None -> max(2, int(fwhm * minsep_fwhm + 0.5)) with minsep_fwhm = 2.5; an explicit 0 is 0"""
+    ms = p['min_separation']
+    if ms is None:
+        assert kind == 'IRAF'
+        return float(max(2, int(p['fwhm'] * 2.5 + 0.5)))
+    return float(ms)
+
+
+def conv_of(kind, p, data):
+    """the convolved image, the threshold and the kernel footprint that _find_stars must be given, derived
+    from the requested arguments"""
+    from photutils.utils._convolution import _filter_data
+    kern = requested_kernel(kind, p)
+    if kind == 'SF':
+        k = np.array(kern, float)
         k = k / np.max(k)
         den = np.sum(k ** 2) - (np.sum(k) ** 2 / k.size)
         if den > 0:
             k = (k - np.sum(k) / k.size) / den
         conv = _filter_data(data, k, mode='constant', fill_value=0.0, check_normalization=False)
-        return conv, float(finder.threshold), np.ones(k.shape, bool)
-    conv = _filter_data(data, finder.kernel.data, mode='constant', fill_value=0.0, check_normalization=False)
-    thr = float(finder.threshold_eff) if kind == 'DAO' else float(finder.threshold)
-    return conv, thr, finder.kernel.mask.astype(bool)
+        return conv, float(p['threshold']), np.ones(k.shape, bool), kern
+    conv = _filter_data(data, kern.data, mode='constant', fill_value=0.0, check_normalization=False)
+    thr = float(p['threshold'] * kern.relerr) if kind == 'DAO' else float(p['threshold'])
+    return conv, thr, kern.mask.astype(bool), kern
 
 
 def py_pass(kind, p, r):
@@ -733,18 +773,14 @@ def run_finder(kind, p, data, mask):
         xypos = None if cat is None else [(float(x), float(y)) for x, y in np.atleast_2d(cat.xypos)]
         finder2 = make_finder(kind, p)
         tbl = finder2(data.copy(), mask=None if mask is None else mask.copy())
-        conv, thr, kfp = conv_of(kind, make_finder(kind, p), data.copy())
+        conv, thr, kfp, kern = conv_of(kind, p, data.copy())
     out = None
     if tbl is not None:
         cols = SPEC[kind][2]
         out = ([int(i) for i in tbl['id']],
                [[float(np.asarray(tbl[c_], float)[i]) for c_ in cols] for i in range(len(tbl))],
                list(tbl.colnames))
-    return dict(rows=rows, xypos=xypos, table=out, conv=conv, thr=thr, kfp=kfp, finder=finder)
-
-
-def eff_min_separation(kind, p, finder):
-    return float(finder.min_separation)
+    return dict(rows=rows, xypos=xypos, table=out, conv=conv, thr=thr, kfp=kfp, kernel=kern)
 
 
 def _first_moment_centroid(c):
@@ -755,7 +791,7 @@ def _first_moment_centroid(c):
         return (c * xx).sum() / tot, (c * yy).sum() / tot
 
 
-def recompute_centroid(kind, finder, data, xp, yp):
+def recompute_centroid(kind, kern, data, xp, yp):
     """The centroid the finder documents for a source detected at the integer pixel (xp, yp),
     recomputed from the image alone:
       StarFinder: first moments of the kernel-sized window centred on the peak, TRIMMED at the frame,
@@ -768,7 +804,7 @@ def recompute_centroid(kind, finder, data, xp, yp):
     ny, nx = data.shape
     xp, yp = int(xp), int(yp)
     if kind == 'SF':
-        ky, kx = np.asarray(finder.kernel).shape
+        ky, kx = np.asarray(kern).shape
         if ky % 2 == 0 or kx % 2 == 0:
             return None
         y0, x0 = max(yp - ky // 2, 0), max(xp - kx // 2, 0)
@@ -778,7 +814,7 @@ def recompute_centroid(kind, finder, data, xp, yp):
         cx, cy = _first_moment_centroid(c)
         return cx + x0, cy + y0
     if kind == 'IRAF':
-        k = finder.kernel
+        k = kern
         m = k.mask.astype(bool)
         ky, kx = m.shape
         ry, rx = ky // 2, kx // 2
@@ -807,7 +843,7 @@ def oracle_finder(kind, p, data, mask, res):
     who = {'DAO': 'DAOStarFinder', 'IRAF': 'IRAFStarFinder', 'SF': 'StarFinder'}[kind]
     attrs, vis, cols, iflux, ipeak = SPEC[kind]
     rows, xypos, table = res['rows'], res['xypos'], res['table']
-    ms = eff_min_separation(kind, p, res['finder'])
+    ms = requested_min_separation(kind, p)
     # detected peaks / xycoords
     if p.get('xycoords') is not None:
         want = [(float(x), float(y)) for x, y in p['xycoords']]
@@ -911,7 +947,7 @@ def oracle_finder(kind, p, data, mask, res):
     # ... and equal to the centroid recomputed independently from the documented cutout (every raw source)
     if xypos is not None and rows is not None and p.get('xycoords') is None and kind in ('SF', 'IRAF'):
         for (x, y), r in zip(xypos, rows):
-            rc = recompute_centroid(kind, res['finder'], data, x, y)
+            rc = recompute_centroid(kind, res['kernel'], data, x, y)
             if rc is None:
                 continue
             if not (_close(r[0], float(rc[0])) and _close(r[1], float(rc[1]))):
@@ -924,7 +960,7 @@ def oracle_finder(kind, p, data, mask, res):
 
 def coq_filter(kind, p, res):
     rows = res['rows'] or []
-    f = {'DAO': f"(DAO {coq(bool(res['finder'].threshold_eff == 0))})" if kind == 'DAO' else '', 'IRAF': 'IRAF',
+    f = {'DAO': f"(DAO {coq(bool(res['thr'] == 0))})" if kind == 'DAO' else '', 'IRAF': 'IRAF',
          'SF': 'SF'}[kind]
     if kind == 'SF':
         bounds = []
@@ -966,8 +1002,10 @@ def refine_params(rng, kind, p, rows):
             pass          # an empty interval is a legal configuration: nothing passes
     elif kind != 'SF' and rng.random() < 0.5:
         q.update(sharplo=-1e3, sharphi=1e3, roundlo=-1e3, roundhi=1e3)
+    if kind != 'SF' and rng.random() < 0.25:       # a bound that is exactly (int or float) zero
+        q[rng.choice(['sharplo', 'sharphi', 'roundlo', 'roundhi'])] = rng.choice([0, 0.0])
     if fin and rng.random() < 0.35:
-        q['peakmax'] = rng.choice(fin)[ipeak] if rng.random() < 0.7 else 100.0
+        q['peakmax'] = rng.choice(fin)[ipeak] if rng.random() < 0.7 else rng.choice([100.0, 0, 0.0])
     if rng.random() < 0.45:
         q['brightest'] = rng.randint(1, max(1, len(fin) + 1))
     return q
@@ -1218,7 +1256,7 @@ def run(ctx):
         if res['table'] is not None:
             ctx.support('centroid within kernel of a detected peak', len(res['table'][0]))
         # K: peak finding
-        ms = eff_min_separation(kind, p, res['finder'])
+        ms = requested_min_separation(kind, p)
         if ms * 4 == int(ms * 4):
             xin = p['xycoords']
             terms.append(coq_stars(res['conv'], res['thr'], res['kfp'], ms, mask, p['exclude_border'],
@@ -1227,6 +1265,46 @@ def run(ctx):
         # K: filters
         terms.append(coq_filter(kind, p, res))
         meta.append(('finder-filter', d, not errs))
+
+    # ---------------- close pairs x every kind of min_separation; detection mode vs xycoords mode ----------------
+    MS = {'DAO': [0, 0.0, 1.0, 2.5, 4.0, 8.0], 'IRAF': [None, 0, 0.0, 1.0, 2.5, 4.0, 8.0],
+          'SF': [0, 0.0, 1.0, 2.5, 5.0, 8.0]}
+    n_pp = 2 if quick else 12
+    for kind in ('DAO', 'IRAF', 'SF'):
+        for ms_arg in MS[kind]:
+            for rep in range(n_pp):
+                data, sep = make_pair_scene(rng)
+                p = gen_finder_params(rng, kind)
+                p.update(threshold=rng.choice([2.0, 5.0]), min_separation=ms_arg, exclude_border=False)
+                if kind != 'SF':
+                    p.update(sharplo=-1e3, sharphi=1e3, roundlo=-1e3, roundhi=1e3, fwhm=rng.choice([1.5, 2.0, 2.5]))
+                else:
+                    p['kernel'] = (5, 5, rng.choice([0.8, 1.2]))
+                d = dict(describe_finder(kind, p, data, None), pair_offset=list(sep))
+                try:
+                    res = run_finder(kind, p, data, None)
+                except Exception as e:
+                    ctx.violation(f'{kind}:exception:{type(e).__name__}', f'finder raised {e!r}'[:200], d)
+                    continue
+                ctx.stat('pair scenes', f'{kind}/min_separation={ms_arg!r}')
+                ctx.stat('pair scenes detected', 'none' if res['xypos'] is None else str(min(len(res['xypos']), 4)))
+                ctx.count_case(d, res['table'] is not None)
+                errs = oracle_finder(kind, p, data, None, res)
+                for sig, what in errs:
+                    ctx.violation(sig, what, dict(d, cmd='bin/check C14 --replay <this file>'))
+                ms = requested_min_separation(kind, p)
+                terms.append(coq_stars(res['conv'], res['thr'], res['kfp'], ms, None, False, None, res['xypos']))
+                meta.append(('finder-peaks', d, not errs))
+                # the same peaks supplied through xycoords: same raw catalog, same table
+                if kind != 'SF' and res['xypos']:
+                    who = {'DAO': 'DAOStarFinder', 'IRAF': 'IRAFStarFinder'}[kind]
+                    p2 = dict(p, xycoords=[tuple(q) for q in res['xypos']])
+                    res2 = run_finder(kind, p2, data, None)
+                    k_ = lambda rows: None if rows is None else [tuple(enc_int(v) for v in r) for r in rows]
+                    if k_(res2['rows']) != k_(res['rows']) or not tables_equal(res2['table'], res['table'], 0.0):
+                        ctx.violation(f'{who}:xycoords-vs-detection', 'supplying the detected peaks through xycoords '
+                                      'does not give the same catalog / table as detecting them', dict(d, xycoords=p2['xycoords']))
+                    ctx.support('xycoords mode == detection mode on the same peaks')
 
     # ---------------- sources at the four edges and corners (centroid clause) ----------------
     n_e = 24 if quick else 240
